@@ -129,6 +129,7 @@ type Explorer struct {
 	pathCovers  []string
 	known       map[string]*Term
 	httpReqs    []*value
+	lastHTTPStatus value
 	pathViolated bool
 	foreign     bool
 
@@ -581,6 +582,7 @@ func (e *Explorer) resetPath(p []int) {
 	e.pathCovers = nil
 	e.known = map[string]*Term{}
 	e.httpReqs = nil
+	e.lastHTTPStatus = nil
 	e.pathViolated = false
 	e.foreign = false
 }
